@@ -213,3 +213,52 @@ Definition ec_num_data (e : Z * Z * Z) : Z := snd e.
 (* list item assignment (no byte range) *)
 Definition py_list_set_item {A} (l : list A) (i : Z) (v : A) : res (list A) :=
   do k <- py_norm_index (lenZ l) i; Ok (upd_nat l (Z.to_nat k) v).
+
+(* ------------------------------------------------------------------ more sequence helpers *)
+(* seq.pop() / seq.pop(-1) as an expression: the last item and the sequence without it *)
+Definition py_pop_last {A} (l : list A) : res (A * list A) :=
+  match rev l with [] => Err IndexErr | x :: _ => Ok (x, removelast l) end.
+
+(* [x for x in seq if x is not None] *)
+Fixpoint py_somes {A} (l : list (option A)) : list A :=
+  match l with [] => [] | Some x :: r => x :: py_somes r | None :: r => py_somes r end.
+
+(* itertools.zip_longest of the unpacked sequences: the columns, None where a sequence is exhausted *)
+Definition py_all_nil {A} (ls : list (list A)) : bool := forallb (fun l => match l with [] => true | _ => false end) ls.
+Fixpoint py_zip_longest_fuel {A} (fuel : nat) (ls : list (list A)) : list (list (option A)) :=
+  match fuel with O => [] | S f =>
+    if py_all_nil ls then []
+    else map (fun l => match l with [] => None | x :: _ => Some x end) ls
+         :: py_zip_longest_fuel f (map (fun l => match l with [] => [] | _ :: r => r end) ls)
+  end.
+Definition py_zip_longest {A} (ls : list (list A)) : list (list (option A)) :=
+  py_zip_longest_fuel (S (fold_left (fun a b => Nat.max a (length b)) ls O)) ls.
+
+(* Buffer.append_bits(val, length): ((val >> i) & 1 for i in reversed(range(length))) *)
+Definition py_bits_of (val len : Z) : list Z := map (fun i => Z.land (Z.shiftr val i) 1) (rev (zrange 0 len)).
+
+(* any(seq) for a sequence of ints *)
+Definition py_any (l : list Z) : bool := existsb (fun x => negb (x =? 0)) l.
+
+(* enumerate(seq) *)
+Definition py_enumerate {A} (l : list A) : list (Z * A) := combine (zrange 0 (lenZ l)) l.
+
+(* bytearray.find(sub, start): lowest index >= start where sub occurs, else -1 (0 <= start) *)
+Fixpoint py_starts_with (p l : list Z) : bool :=
+  match p, l with
+  | [], _ => true
+  | a :: p', b :: l' => (a =? b) && py_starts_with p' l'
+  | _ :: _, [] => false
+  end.
+Fixpoint py_find_suffix (p suffix : list Z) (pos : Z) : Z :=
+  match suffix with
+  | [] => if py_starts_with p [] then pos else -1
+  | _ :: r => if py_starts_with p suffix then pos else py_find_suffix p r (pos + 1)
+  end.
+Definition py_find (l p : list Z) (start : Z) : Z :=
+  let s := py_clip (lenZ l) start in
+  if lenZ l <? s + lenZ p then (if (lenZ p =? 0) && (s <=? lenZ l) then s else -1)
+  else py_find_suffix p (skipn (Z.to_nat s) l) s.
+
+(* abs *)
+Definition py_abs (x : Z) : Z := Z.abs x.
